@@ -129,4 +129,42 @@ permutation of the children, chosen by the scheduler -/
 def sendToChildrenInParallel {σ : Type} (rs : RS σ) (s : σ) (t : Tni) (sched : List Peer) : Out σ :=
   sendAll rs s t sched
 
+/-! ### the moment of tree propagation: a message over a tree the server does not know
+`overlay.go:150-175` (`TransmitMsg`) and `333-371` (`requestTree`): the message is parked; unless a
+request for that tree is out already, the tree id is marked as asked for and a request goes to the
+sender of the message through the router; **if that send fails the mark is taken back**, so that
+the next message over the tree asks again.  `handleSendTree` (`overlay.go:505-545`): a tree that was
+asked for is stored and the messages parked for it are handed to their instances. -/
+
+structure Trees where
+  /-- trees in the store -/
+  known : List Nat := []
+  /-- ids marked as asked for (`treeStorage.Register`) -/
+  asked : List Nat := []
+  /-- parked messages: (tree, message), in order of arrival -/
+  parked : List (Nat × Nat) := []
+  /-- ghost: messages handed to protocol instances, in order -/
+  handled : List (Nat × Nat) := []
+  deriving DecidableEq, Repr
+
+/-- a protocol message `m` over tree `t` arrives from peer `p`.  `fixed = false`: the variant in
+which the mark stays after a failed request. -/
+def transmit {σ : Type} (fixed : Bool) (rs : RS σ) (s : σ) (o : Trees) (p : Peer) (t m : Nat) : σ × Trees × Res :=
+  if o.known.contains t then (s, { o with handled := o.handled ++ [(t, m)] }, .ok)
+  else
+    let o := { o with parked := o.parked ++ [(t, m)] }
+    if o.asked.contains t then (s, o, .ok)          -- "request already sent"
+    else
+      let r := rs s p 1                              -- `o.server.Send(si, msg)` with the mark set
+      match r.2 with
+      | .ok => (r.1, { o with asked := o.asked ++ [t] }, .ok)
+      | .err => (r.1, if fixed then o else { o with asked := o.asked ++ [t] }, .err)
+
+/-- the tree arrives: accepted only if it was asked for; stored, its parked messages handled -/
+def treeArrives (o : Trees) (t : Nat) : Trees :=
+  if o.asked.contains t then
+    { known := o.known ++ [t], asked := o.asked.filter (· != t),
+      parked := o.parked.filter (·.1 != t), handled := o.handled ++ o.parked.filter (·.1 == t) }
+  else o
+
 end C09
